@@ -269,6 +269,18 @@ func runStress(m *meta, w *traceWriter, rng *rand.Rand, sc stressCfg, round int)
 	unwatch()
 	watch(ctx + " Sync")
 	c.Sync()
+	// the notifier (and a re-entrant listener writing from it) must settle before the state is quiescent
+	for i, stable, lastSt := 0, 0, int64(-1); i < 2000 && stable < 3; i++ {
+		c.VerifFlushRemovals()
+		c.Sync()
+		st := kioshun.VerifStagedCount()*1000003 + c.Size()
+		if st == lastSt {
+			stable++
+		} else {
+			stable, lastSt = 0, st
+		}
+		time.Sleep(200 * time.Microsecond)
+	}
 	unwatch()
 	// async writes make per-key histories inexact: only check them when the run had none
 	if !sc.async {
@@ -376,6 +388,29 @@ func asyncOrder(m *meta, rng *rand.Rand, round int) {
 	per := 300 + rng.Intn(2500)
 	var wg sync.WaitGroup
 	last := make([]int, nk)
+	pollStop := make(chan struct{})
+	var pollWg sync.WaitGroup
+	pollWg.Add(1)
+	go func() {
+		defer pollWg.Done()
+		seen := make([]int, nk)
+		for {
+			select {
+			case <-pollStop:
+				return
+			default:
+			}
+			for k := 0; k < nk; k++ {
+				if v, _, _, ok := c.VerifPeek(k); ok {
+					if v < seen[k] {
+						m.violate("C04", fmt.Sprintf("%s: key %d went back from version %d to %d (single producer, increasing versions)", ctx, k, seen[k], v), ctx)
+						return
+					}
+					seen[k] = v
+				}
+			}
+		}
+	}()
 	watch(ctx)
 	for k := 0; k < nk; k++ {
 		wg.Add(1)
@@ -388,8 +423,14 @@ func asyncOrder(m *meta, rng *rand.Rand, round int) {
 				switch {
 				case mode == 1 && v%5 == 0:
 					e = c.Set(k, v, kioshun.NoExpiration)
+					if pv, _, _, ok := c.VerifPeek(k); e == nil && (!ok || pv != v) {
+						m.violate("C04", fmt.Sprintf("%s: Set(%d,%d) returned but the key holds (%d,%v): an earlier accepted write overwrote a later one", ctx, k, v, pv, ok), ctx)
+					}
 				case mode == 2 && v%7 == 0:
 					c.Delete(k)
+					if pv, _, _, ok := c.VerifPeek(k); ok {
+						m.violate("C04", fmt.Sprintf("%s: Delete(%d) returned but the key holds %d: a write accepted before the Delete was applied after it", ctx, k, pv), ctx)
+					}
 					last[k] = -1
 					continue
 				default:
@@ -405,6 +446,8 @@ func asyncOrder(m *meta, rng *rand.Rand, round int) {
 	}
 	wg.Wait()
 	unwatch()
+	close(pollStop)
+	pollWg.Wait()
 	// no further calls: only side-effect-free peeks
 	deadline := time.Now().Add(3 * time.Second)
 	okAll := false
@@ -555,6 +598,66 @@ func closeRaces(m *meta, rng *rand.Rand, round int) {
 		m.violate("C08", fmt.Sprintf("%s: %d goroutines still alive 3 s after Close returned", ctx, n-base), ctx)
 	}
 	m.count("close_rounds")
+}
+
+func stepUntil(id int, points ...int) int {
+	for i := 0; i < 400; i++ {
+		p := kioshun.VerifSchedStep(id)
+		for _, q := range points {
+			if p == q {
+				return p
+			}
+		}
+		if p == kioshun.VerifStepDone || p == kioshun.VerifStepBlocked || p == kioshun.VerifStepUnknown {
+			return p
+		}
+	}
+	return -9
+}
+
+// stalledProducer (C04, deterministic through the yield hooks): a producer is parked between reserving a
+// ring slot and publishing it; a write to k is queued behind it while the shard is busy; a later write to k
+// must not overtake it.
+func stalledProducer(m *meta, rng *rand.Rand, round int) {
+	conf := kioshun.Config{ShardCount: 1, EvictionPolicy: pick(rng, []kioshun.EvictionPolicy{kioshun.LRU, kioshun.SieveTinyLFU, kioshun.FIFO}), WriteBufferSize: 8, WriteBatchSize: pick(rng, []int{1, 2, 64})}
+	ctx := fmt.Sprintf("stalled producer round %d cfg %+v", round, conf)
+	c, err := kioshun.New[int, int](conf) // workers start before the scheduler is on: they run freely
+	must(err)
+	watch(ctx)
+	defer unwatch()
+	kioshun.VerifSchedReset(true, 300*time.Millisecond)
+	defer kioshun.VerifSchedReset(false, 0)
+	// P0: synchronous Set parked while holding the drain token (yield 332 is before the shard lock)
+	kioshun.VerifSchedSpawn(1, func() { c.Set(900, 1, kioshun.NoExpiration) })
+	if p := stepUntil(1, 332); p != 332 {
+		m.count("stalled_setup_failed")
+		return
+	}
+	// P1: SetAsync cannot apply inline (token busy) -> enqueues; park it between reserve (CAS) and publish
+	kioshun.VerifSchedSpawn(2, func() { c.SetAsync(901, 1, kioshun.NoExpiration) })
+	if p := stepUntil(2, 104); p != 104 {
+		m.count("stalled_setup_failed")
+		stepUntil(1, -100)
+		stepUntil(2, -100)
+		return
+	}
+	// write 1 to k is accepted while the token is still busy: it must queue behind P1's slot
+	if e := c.SetAsync(7, 1, kioshun.NoExpiration); e != nil {
+		m.violate("C04", ctx+": SetAsync failed", ctx)
+	}
+	stepUntil(1, -100) // P0 finishes and releases the token
+	// write 2 to k on a now uncontended shard
+	if e := c.SetAsync(7, 2, kioshun.NoExpiration); e != nil {
+		m.violate("C04", ctx+": SetAsync failed", ctx)
+	}
+	stepUntil(2, -100) // the stalled producer publishes
+	kioshun.VerifSchedReset(false, 0)
+	c.Sync()
+	if v, ok := c.Get(7); !ok || v != 2 {
+		m.violate("C04", fmt.Sprintf("%s: SetAsync(7,1) returned before SetAsync(7,2) was called, yet after Sync the key holds (%d,%v)", ctx, v, ok), ctx)
+	}
+	c.Close()
+	m.count("stalled_producer_rounds")
 }
 
 // expiryRace (C07 C05 C02): a short-TTL key re-written while readers hit its expiry path.
@@ -753,6 +856,7 @@ func streamConc(o opts) {
 				closeRaces(m, rng, r)
 			}
 			expiryRace(m, rng, r)
+			stalledProducer(m, rng, r)
 			m.nontrivial(fmt.Sprintf("async+close/%d", r%16))
 		case 3:
 			tableRace(m, rng, r)
